@@ -4,6 +4,8 @@
 // (harness/px + harness/dsx), generated with every threshold in {0,1,2}, ambient load held by other requests, and the
 // persistent-failure families; the case line carries the full trace and the final ledger
 // (Requests().Cur, Retries().Cur, UpstreamRequestActive, DownstreamRequestActive).
+// Kind `tcp` (tcp.go): session scripts on the real stream proxy filter behind the real connection handler on loopback
+// sockets — the cluster's Connections() resource, the UpstreamConnectionActive gauges and the handler's connection count.
 package c10
 
 import (
@@ -15,5 +17,10 @@ func init() { hx.Register("C10", Run) }
 
 func Run(c *hx.Ctx) {
 	c03.ModelCheck(c, "C10")
+	if len(c.Args) > 0 && c.Args[0] == "tcponly" { // development aid: only the stream proxy sessions
+		RunTcp(c, c.N(100, 500))
+		return
+	}
 	c03.RunMany(c, "C10", c.N(700, 2500), 8, true)
+	RunTcp(c, c.N(100, 500))
 }
